@@ -58,7 +58,7 @@ type Scn struct {
 	Kind       string // fit | block | hist
 	Proto      string // kitty | sixel | half | full
 	Cols, Rows int
-	CW, CH     int // cell size in pixels (kitty, sixel)
+	CW, CH     int      // cell size in pixels (kitty, sixel)
 	Fits       []Fit    `json:",omitempty"`
 	Blocks     []Block  `json:",omitempty"`
 	Imgs       [][2]int `json:",omitempty"` // hist: pixel sizes of the images
@@ -321,10 +321,10 @@ func (se *session) runHist(ctx *Ctx, sc *Scn) (evs []trace.Ev, note string) {
 	}
 	cols, rows := sc.Cols, sc.Rows
 	type placed struct {
-		k, g       int
-		chain      []c11.Level
-		w, h       int
-		x0, y0     int // origin and extent, only for keeping sixel images apart
+		k, g   int
+		chain  []c11.Level
+		w, h   int
+		x0, y0 int // origin and extent, only for keeping sixel images apart
 	}
 	var want []placed
 	gen := make([]int, len(imgs)) // how often each image has been (re-)encoded
